@@ -59,7 +59,9 @@ def snapshot(model):
             names[n] = ('cell', getattr(d, 'address', repr(type(d))))
     ranges = {a: [list(r) for r in r_.cells] if hasattr(r_, 'cells')
               else repr(type(r_)) for a, r_ in model.ranges.items()}
-    return {'cells': cells, 'formulae': sorted(model.formulae),
+    return {'cells': cells, 'formulae': sorted(
+        (k, getattr(f, 'formula', repr(f))) for k, f in
+        model.formulae.items()),
             'names': names, 'ranges': ranges}
 
 
@@ -106,6 +108,8 @@ def run(ctx):
             names['NmCell'] = ('ref', k[0], k[1], k[2], True, True)
             rows = max(r for (s, c, r) in m.inputs if s == s0)
             names['NmRange'] = ('rng', s0, 1, 1, 2, rows, (True,) * 4)
+            fk = rng.choice(m.formulas)
+            names['NmFormula'] = ('ref', fk[0], fk[1], fk[2], True, True)
         wb = ref.Workbook(cells, names)
         xpath = os.path.join(out, f's{ctx.shard}.xlsx')
         for point in ('uncompiled', 'compiled', 'evaluated', 'overwritten'):
